@@ -1,9 +1,10 @@
 import FxVerif.Gen.C20
 import FxVerif.Gen.C20Sites
+import FxVerif.Model.C20Run
 /-!
 # C20 — hand-written part of the model
 
-* `reviewedSafe` / `containedByAnteRecover`: the reviewed list for the regenerated inventory of potentially panicking
+* `reviewedSafe`: the reviewed list for the regenerated inventory of potentially panicking
   constructs (`Gen/C20Sites.lean`), keyed by (package, function, kind, expression) — never by line;
 * models of the pure decoders: `ParseFxTarget`, `StrToByte32`, the Ethereum-address format class, hex strings.
 -/
@@ -27,10 +28,6 @@ def Reviewed.covers (r : Reviewed) (s : Site) : Bool :=
 
 /-- sites read and argued unable to panic -/
 def reviewedSafe : List Reviewed := [
-  { pkg := "ante", recv := "CheckTxFeees", meth := "checkTxFeeWithValidatorMinGasPrices", kind := "index", expr := "requiredFees[i]",
-    why := "requiredFees := make(sdk.Coins, len(minGasPrices)) and i ranges over minGasPrices" },
-  { pkg := "ante", meth := "getTxPriority", kind := "div", expr := "c.Amount.QuoRaw(gas)",
-    why := "gas = int64(feeTx.GetGas()); DeductFeeDecorator returns ErrInvalidGasLimit for gas = 0 (height > 0, not simulating) before calling the checker, and SetUpContextDecorator refuses gas > Block.MaxGas (30 000 000) so the int64 conversion cannot wrap to 0; modelled exactly as Outcome.panic in Gen.C20.checkTxFee and excluded by checktx_no_panic_in_range; harness sweeps gas = 0" },
   { pkg := "x/crosschain/types", recv := "BridgeCallArgs", meth := "Validate", kind := "nilint", expr := "args.Value.Sign()",
     why := "only reached through ParseMethodArgs after abi.Arguments.Copy, which stores a non-nil *big.Int for every uint256 input (go-ethereum ABI, trusted); harness: random/mutated calldata through the real precompile" },
   { pkg := "x/crosschain/types", recv := "ERC20Token", meth := "ValidateBasic", kind := "nilint", expr := "m.Amount.IsPositive()",
@@ -51,21 +48,16 @@ def reviewedSafe : List Reviewed := [
     why := "as above" }
 ]
 
-/-- sites in package `ante` that CAN be driven out of range by a hostile transaction but run under the deferred
-`evmante.Recover` of `NewAnteHandler` (`Gen.C20.anteRecoversFirst`), so the ante handler returns an error instead of
-panicking; the harness drives exactly these inputs through the real handler -/
-def containedByAnteRecover : List Reviewed := [
-  { pkg := "ante", recv := "PubKeyDecorator", meth := "AnteHandle", kind := "index", expr := "signers[i]",
-    why := "i ranges over the SignerInfos' public keys, signers come from the messages; the SDK's tx.ValidateBasic only equates len(signatures) with len(signers)" },
-  { pkg := "ante", meth := "ConsumeMultisignatureVerificationGas", kind := "index", expr := "pubkey.GetPubKeys()[i]",
-    why := "copied from the SDK: bit array size is attacker-chosen" },
-  { pkg := "ante", meth := "ConsumeMultisignatureVerificationGas", kind := "index", expr := "sig.Signatures[sigIndex]",
-    why := "copied from the SDK: number of set bits vs number of signatures is attacker-chosen" }
-]
+/-- An untyped-inventory site of package `ante` is accepted only through the TYPED ante inventory
+(`Gen.C20Run.anteSites`, obligation `ante_sites_ok`): same function, same expression, guarded or reviewed there.
+(Round 1 accepted three index sites because they "run under the deferred Recover of NewAnteHandler"; a recovered panic is
+answered with ErrPanic and is a violation, so that list is gone.) -/
+def coveredByTypedAnte (s : Site) : Bool :=
+  s.pkg == "ante" && FxVerif.Gen.C20Run.anteSites.any fun t =>
+    t.recv == s.recv && t.meth == s.meth && t.expr == s.expr && FxVerif.Model.C20Run.anteSiteOk t
 
 def siteOk (s : Site) : Bool :=
-  s.guarded || reviewedSafe.any (·.covers s) ||
-    (s.pkg == "ante" && FxVerif.Gen.C20.anteRecoversFirst && containedByAnteRecover.any (·.covers s))
+  s.guarded || reviewedSafe.any (·.covers s) || coveredByTypedAnte s
 
 /-! ## StrToByte32 -/
 
